@@ -5,7 +5,8 @@
 (*       close region (so that "every effect" of the enumeration is every step    *)
 (*       of the model, and the permanent path is touched only there)              *)
 (*  [ev |-> "outcome", kind, i, n, cls, raised, arc, retry]  one real run with     *)
-(*       effect i (of n; cls = "effect" | "member" | "compute") failing            *)
+(*       effect i (of n; cls = "effect" | "member" | "compute" | "kbdint" | "sysexit" | "genexit": *)
+(*       the last three are interruptions at a computation step) failing            *)
 (*  [ev |-> "coverage", kind, cls, n, done]  which fault points were executed       *)
 EXTENDS Naturals, Sequences, FiniteSets, Json, IOUtils, TLC, TLCExt
 CONSTANT AtomicClose
